@@ -224,3 +224,26 @@ void new_rule(void)
 	++num_rules;
 	rule_linenum[num_rules] = 1;
 }
+
+/* ---------------------------------------------------------------- R8 */
+int cur_max, cur_max2, *kept, *forgotten, *optional, *late;
+void setup_family(void)
+{
+	cur_max = 100; cur_max2 = 100;
+	kept = allocate_array(cur_max, sizeof(int)); forgotten = allocate_array(cur_max, sizeof(int));
+	late = allocate_array(cur_max2, sizeof(int));
+}
+void make_optional(void) { optional = allocate_array(cur_max, sizeof(int)); }
+void bad_grow(void)				/* control: one member of the family is not reallocated */
+{
+	cur_max += 100;
+	kept = reallocate_array(kept, cur_max, sizeof(int));
+	if (optional)
+		optional = reallocate_array(optional, cur_max, sizeof(int));
+}
+void bad_grow_early_return(int quick)		/* control: a path leaves before the reallocation */
+{
+	cur_max2 *= 2;
+	if (quick) return;
+	late = reallocate_array(late, cur_max2, sizeof(int));
+}
